@@ -317,8 +317,8 @@ def canonicalize(asts, ref=None):
             if len(olds) != 1:
                 continue
             old = next(iter(olds))
-            if _is_protected(old, prot, prefixes) or _is_protected(new, prot, prefixes):
-                continue
+            if scope[0] != "loc" and (_is_protected(old, prot, prefixes) or _is_protected(new, prot, prefixes)):
+                continue        # (locals and parameters cannot be reached through their spelling)
             if scope[0] == "cls":
                 key = (scope[1], scope[2])
                 if new in ref_cls[key] or old in cur_cls[key]:
